@@ -8,6 +8,7 @@ def cidStr : Cid → String
   | .none => "none"
   | .orig n => s!"o{n}"
   | .txc s p => s!"t({s},{cidStr p})"
+  | .adv n p => s!"a({n},{cidStr p})"
 
 def sortStrs (l : List String) : List String := l.mergeSort (fun a b => decide (a ≤ b))
 
@@ -40,20 +41,24 @@ def stripMoved (j : Json) : Json :=
     `reflog-insert`: the two statements of the logged ref update of branch `on`; `tx-update`: the status
     flip; `staged-delete`: the delete of the staged ref of branch `on`; `tx-delete`: the delete of the
     transaction row);
-    `hide` — the staged commit object of that branch is unreadable (command-line scenarios). -/
+    `hide` — the staged commit object of that branch is unreadable (command-line scenarios).
+    `advance` is not an operation of the transaction: another operation of the repository puts the
+    ordinary commit `new` on branch `on` in between (`txAdvance`). -/
 structure TxOpJ where
   kind : String
   failAt : Int
   sql : String
   on : String
   hide : String
+  new : Nat
 
 def TxOpJ.healthy (o : TxOpJ) : Bool := o.failAt < 0 && o.sql == "" && o.hide == ""
 
 def txOpOf (o : Json) : Except String TxOpJ := do
   let str := fun (k : String) => (fldD o k (Json.str "")).getStr?.toOption.getD ""
   return { kind := ← strFld o "kind", failAt := ← intFld o "failAt",
-           sql := str "sql", on := str "on", hide := str "hide" }
+           sql := str "sql", on := str "on", hide := str "hide",
+           new := (fldD o "new" (jNat 0)).getNat?.toOption.getD 0 }
 
 def strsOf (j : Json) (k : String) : List String :=
   ((fldD j k (Json.arr #[])).getArr?.toOption.getD #[]).toList.filterMap (fun x => x.getStr?.toOption)
@@ -112,7 +117,8 @@ def txVerdict (cli : Bool) (input : Json) (istates : List Json) : Except String 
       match os, ist with
       | [], _ => acc.reverse
       | o :: rest, i :: irest =>
-        let (s', oc) := if o.kind == "commit" then
+        let (s', oc) := if o.kind == "advance" then (txAdvance o.on o.new s, TxOutcome.ok)
+          else if o.kind == "commit" then
             let (order, failAt) := commitPlan o s i
             -- a staged commit that cannot be rewritten (its message does not fit once prefixed) and
             -- is still to be applied makes the whole commit a refusal: nothing is written
@@ -143,9 +149,36 @@ def txVerdict (cli : Bool) (input : Json) (istates : List Json) : Except String 
     let logCount := fun (j : Json) (b : String) => (fldD (fldD j "logs" (Json.mkObj [])) b (jNat 0)).getNat?.toOption.getD 0
     let initCid := fun (b : String) => cidStr (init.head b)
     let pairs := istates.zip (istates.drop 1)
+    -- Other operations committing to the branches in between (`advance`). State number `n` is the one
+    -- after the first `n` operations; `advsOf n b`: the ordinary commits put on branch `b` so far.
+    let hasAdv := ops.any (fun o => o.kind == "advance")
+    let numbered := istates.zip (List.range istates.length)
+    let advsOf := fun (n : Nat) (b : String) =>
+      (ops.take n).filterMap (fun o => if o.kind == "advance" && o.on == b then some o.new else none)
+    -- where branch `b` is when the transaction has not moved it: its head of before, with those commits on top
+    let plainCid := fun (n : Nat) (b : String) => cidStr (applyAdvs (init.head b) (advsOf n b))
+    -- where it may be when the transaction has moved it: the staged commit on the head of that
+    -- moment, exactly once, later commits on top (Model/Tx.lean `movedOnceHeads`)
+    let movedCids := fun (n : Nat) (b : String) =>
+      match (staged.find? (fun p => p.1 == b)).map (·.2) with
+      | some st => (movedOnceHeads (init.head b) st (advsOf n b)).map cidStr
+      | none => []
+    -- the all-branches outcome in state `n`: the branches of before, the staged ones and those
+    -- other operations made; a staged branch moved exactly once, any other where those operations left it
+    let allMovedOnce := fun (s : Json) (n : Nat) =>
+      let names := sortStrs ((init.heads.map (·.1) ++ staged.map (·.1) ++
+        (ops.take n).filterMap (fun o => if o.kind == "advance" then some o.on else none)).eraseDups)
+      (headPairs s).map (·.1) == names &&
+      (headPairs s).all (fun (b, c) =>
+        if staged.any (fun p => p.1 == b) then (movedCids n b).contains c else c == plainCid n b)
+    let plainHeads := fun (s : Json) (n : Nat) =>
+      (headPairs s).map (·.1) == sortStrs ((init.heads.map (·.1) ++
+        (ops.take n).filterMap (fun o => if o.kind == "advance" then some o.on else none)).eraseDups) &&
+      (headPairs s).all (fun (b, c) => c == plainCid n b)
     let viol :=
       -- once committed, the heads are exactly the all-branches outcome, each branch logged exactly once
-      (if istates.all (fun s => !isCommitted s || headsOf s == expHeadsJ.compress) then [] else ["committed-means-all-branches-moved-exactly-once"]) ++
+      (if (if hasAdv then numbered.all (fun (s, n) => !isCommitted s || allMovedOnce s n)
+           else istates.all (fun s => !isCommitted s || headsOf s == expHeadsJ.compress)) then [] else ["committed-means-all-branches-moved-exactly-once"]) ++
       (if istates.all (fun s => !isCommitted s ||
           (match objPairs (fldD s "logs" (Json.mkObj [])) with
            | .ok l => staged.all (fun p => l.any (fun q => q.1 == p.1 && q.2 == 1)) && l.all (fun q => q.2 ≤ 1)
@@ -153,12 +186,15 @@ def txVerdict (cli : Bool) (input : Json) (istates : List Json) : Except String 
       -- a failed commit followed by successful re-runs ends in the all-branches outcome
       -- a transaction holding a staged commit that cannot be rewritten can never be committed: it must
       -- then not be committed in part either — no branch ever moves (all or nothing)
-      (if unwStaged && !istates.all (fun s => !isCommitted s && headsOf s == initHeadsJ.compress) then
+      (if unwStaged && !(if hasAdv then numbered.all (fun (s, n) => !isCommitted s && plainHeads s n)
+                         else istates.all (fun s => !isCommitted s && headsOf s == initHeadsJ.compress)) then
          ["uncommittable-transaction-moves-no-branch"] else []) ++
       (if !unwStaged && ops.any (fun o => o.kind == "commit" && o.healthy) && !ops.any (fun o => o.kind == "discard") then
-         (if isCommitted final && headsOf final == expHeadsJ.compress then [] else ["rerun-completes-to-all-branches-outcome"]) else []) ++
+         (if isCommitted final && (if hasAdv then allMovedOnce final (istates.length - 1) else headsOf final == expHeadsJ.compress)
+          then [] else ["rerun-completes-to-all-branches-outcome"]) else []) ++
       -- a refused or successful discard never touches a branch; commit/discard of a committed transaction change nothing
-      (if (pairs.zip ops).all (fun ((a, b), o) =>
+      -- (a commit some other operation makes on a branch is neither)
+      (if (pairs.zip ops).all (fun ((a, b), o) => o.kind == "advance" ||
           (o.kind != "discard" || headsOf a == headsOf b) &&
           (!isCommitted a || (stripMoved a |>.setObjVal! "outcome" Json.null).compress == (stripMoved b |>.setObjVal! "outcome" Json.null).compress) &&
           (!isCommitted a || isRefusal (outcomeOf b))) then [] else ["discard-never-touches-branches-and-committed-is-final"]) ++
@@ -168,12 +204,18 @@ def txVerdict (cli : Bool) (input : Json) (istates : List Json) : Except String 
       -- at every point a branch is either where it was before the transaction or carries the
       -- transaction's commit AND the entry in its log that says so (a moved branch without the entry
       -- is neither "where it was" nor completable: the re-run does not recognise it)
-      (if istates.all (fun s => (headPairs s).all (fun (b, c) => c == initCid b || logCount s b ≥ 1)) then []
+      (if numbered.all (fun (s, n) => (headPairs s).all (fun (b, c) =>
+          (if hasAdv then c == plainCid n b else c == initCid b) || logCount s b ≥ 1)) then []
        else ["moved-branch-is-recorded-in-its-log"]) ++
+      -- at every point — before, between and after the runs of the commit, whatever other operations
+      -- have committed to the branches meanwhile — a branch is where those operations alone would have
+      -- left it, or carries the staged commit exactly once: no duplicated commits
+      (if numbered.all (fun (s, n) => (headPairs s).all (fun (b, c) => c == plainCid n b || (movedCids n b).contains c)) then []
+       else ["branch-unmoved-or-moved-exactly-once"]) ++
       -- until a commit of the transaction is attempted, no branch moves
       (if ((istates.zip (List.range istates.length)).all (fun (s, n) =>
           (ops.take n).any (fun o => o.kind == "commit") ||
-          (headPairs s).all (fun (b, c) => c == initCid b) && (init.heads.all (fun h => (headPairs s).any (fun q => q.1 == h.1))))) then []
+          (headPairs s).all (fun (b, c) => if hasAdv then c == plainCid n b else c == initCid b) && (init.heads.all (fun h => (headPairs s).any (fun q => q.1 == h.1))))) then []
        else ["uncommitted-transaction-moves-no-branch"]) ++
       (if headsOf (istates.headD Json.null) == initHeadsJ.compress then [] else [])
     return (mj, agree, viol)
